@@ -178,7 +178,7 @@ func (d *Device) handleABSEvent(ie *input.InputEvent) {
 	if seen && lastValue == value {
 		return
 	}
-	d.lastAnalogValue[ie.Source.Name][ie.Event.Code] = value
+	shaped := value
 
 	if analog.FlipAxis {
 		if canBeNegative {
@@ -190,8 +190,10 @@ func (d *Device) handleABSEvent(ie *input.InputEvent) {
 
 	if d.ccLearning && (analog.MappingType == config.AnalogCC || analog.MappingType == config.AnalogPitchBend) &&
 		!(value < -0.5 || value > 0.5) {
+		// not sent, so not remembered as sent either: the same position after learning is no repetition
 		return
 	}
+	d.lastAnalogValue[ie.Source.Name][ie.Event.Code] = shaped
 
 	if !d.noLogs {
 		log.Info(fmt.Sprintf("Analog event: %s", ie.Event.String()), d.logFields(
